@@ -28,6 +28,26 @@ var c06Pool = []refmodel.RouteDef{
 	{Path: "/*", Methods: []string{"GET"}},
 	{Path: "/i", Methods: refmodel.Methods},
 	{Path: "/b", Methods: []string{"OPTIONS", "TRACE"}},
+	{Path: "/*", Methods: []string{"POST", "PUT"}},
+}
+
+// two pool entries may not share a table when they would register the same static method+path twice
+func c06Conflict(a, b int) bool {
+	if a == b {
+		return true
+	}
+	pa, pb := c06Pool[a], c06Pool[b]
+	if pa.Path != pb.Path || strings.ContainsAny(pa.Path, "{[") {
+		return false
+	}
+	for _, m := range pa.Methods {
+		for _, n := range pb.Methods {
+			if m == n {
+				return true
+			}
+		}
+	}
+	return false
 }
 
 var c06Intercepts = []string{"", "/i", "i", "/i/", "/none", "/a/7"}
@@ -64,7 +84,7 @@ func c06Gen(tier string, emit func(c06Case)) {
 		for i := 0; i < n; i++ {
 			skip := false
 			for _, c := range cur {
-				if c == i || (c == 7 && i == 8) || (c == 8 && i == 7) {
+				if c06Conflict(c, i) {
 					skip = true
 				}
 			}
@@ -83,6 +103,14 @@ func c06Gen(tier string, emit func(c06Case)) {
 			}
 		}
 	}
+}
+
+// the cache capacity alternates between 1 (constant eviction) and 64 (everything stays) with the table shape
+func c06CacheCap(c c06Case) int {
+	if (len(c.Routes)+b2i(c.NotAllowed)+b2i(c.CustomNF))%2 == 0 {
+		return 1
+	}
+	return 64
 }
 
 func c06Run(c c06Case, st *fw.Stats) []fw.Viol {
@@ -112,7 +140,7 @@ func c06Run(c c06Case, st *fw.Stats) []fw.Viol {
 		opts = append(opts, rux.StrictLastSlash)
 	}
 	if c.Cache {
-		opts = append(opts, rux.CachingWithNum(1))
+		opts = append(opts, rux.CachingWithNum(uint16(c06CacheCap(c))))
 	}
 	if c.Intercept != "" {
 		opts = append(opts, rux.InterceptAll(c.Intercept))
@@ -139,91 +167,97 @@ func c06Run(c c06Case, st *fw.Stats) []fw.Viol {
 	cfg := func() string {
 		return fmt.Sprintf("table [%s] options{notAllowed=%v fallback=%v strict=%v cache=%v intercept=%q customNF=%v customNA=%v}", defsString(defs), c.NotAllowed, c.Fallback, c.Strict, c.Cache, c.Intercept, c.CustomNF, c.CustomNA)
 	}
-	for _, m := range c06Methods {
+	// two rounds; inside a round all methods are tried on one path before the next path, so that
+	// every method is requested after every other method on the same path (cache history matters)
+	for round := 0; round < 2; round++ {
 		for _, p := range c06Paths {
-			want := tb.Resolve(m, p)
-			if want.Kind != "route" {
-				st.Nontrivial++
-			}
-			st.Outcome(want.Kind)
-			for rep := 0; rep < 2; rep++ {
-				st.Evals++
-				var gotIdx int
-				var alm []string
-				if pv := try(func() {
-					rt, _, al := r.Match(m, p)
-					gotIdx = routeIdx(rt)
-					alm = append([]string(nil), al...)
-				}); pv != nil {
-					add("match:panic", fmt.Sprintf("%s: Match(%s,%q) panicked: %v", cfg(), m, p, pv))
-					break
+			for _, m := range c06Methods {
+				want := tb.Resolve(m, p)
+				if want.Kind != "route" && round == 0 {
+					st.Nontrivial++
 				}
-				sort.Strings(alm)
-				gotKind := "404"
-				if gotIdx >= 0 {
-					gotKind = "route"
-				} else if len(alm) > 0 {
-					gotKind = "405"
+				if round == 0 {
+					st.Outcome(want.Kind)
 				}
-				wantKind := want.Kind
-				if wantKind == "head-get" || wantKind == "fallback" {
-					wantKind = "route"
-				}
-				if gotKind != wantKind || gotIdx != want.Route || strings.Join(alm, ",") != strings.Join(want.Allowed, ",") {
-					sig := fmt.Sprintf("resolve:want=%s:got=%s", want.Kind, gotKind)
-					if c.Intercept != "" {
-						sig += ":intercept"
-						if refmodel.Norm(c.Intercept, c.Strict) != strings.TrimSpace(c.Intercept) {
-							sig += "-unnormalised"
+				for rep := round; rep < round+1; rep++ {
+					st.Evals++
+					var gotIdx int
+					var alm []string
+					if pv := try(func() {
+						rt, _, al := r.Match(m, p)
+						gotIdx = routeIdx(rt)
+						alm = append([]string(nil), al...)
+					}); pv != nil {
+						add("match:panic", fmt.Sprintf("%s: Match(%s,%q) panicked: %v", cfg(), m, p, pv))
+						break
+					}
+					sort.Strings(alm)
+					gotKind := "404"
+					if gotIdx >= 0 {
+						gotKind = "route"
+					} else if len(alm) > 0 {
+						gotKind = "405"
+					}
+					wantKind := want.Kind
+					if wantKind == "head-get" || wantKind == "fallback" {
+						wantKind = "route"
+					}
+					if gotKind != wantKind || gotIdx != want.Route || strings.Join(alm, ",") != strings.Join(want.Allowed, ",") {
+						sig := fmt.Sprintf("resolve:want=%s:got=%s", want.Kind, gotKind)
+						if c.Intercept != "" {
+							sig += ":intercept"
+							if refmodel.Norm(c.Intercept, c.Strict) != strings.TrimSpace(c.Intercept) {
+								sig += "-unnormalised"
+							}
+						}
+						add(sig, fmt.Sprintf("%s: Match(%s,%q) #%d -> route %d allowed %v; documented order gives %s route %d allowed %v", cfg(), m, p, rep+1, gotIdx, alm, want.Kind, want.Route, want.Allowed))
+						break
+					}
+					// the same request through ServeHTTP
+					rec.n, rec.idx = 0, -1
+					ctxAllowed = "<not called>"
+					resp, pv := serve(r, m, p)
+					if pv != nil {
+						add("serve:panic", fmt.Sprintf("%s: ServeHTTP(%s %q) panicked: %v", cfg(), m, p, pv))
+						break
+					}
+					body := resp.Body.String()
+					bad := ""
+					switch want.Kind {
+					case "route", "head-get", "fallback":
+						if rec.n != 1 || rec.idx != want.Route || resp.Code != 200 {
+							bad = fmt.Sprintf("expected handler of route %d once with 200; got handler %d x%d, status %d", want.Route, rec.idx, rec.n, resp.Code)
+						}
+					case "405":
+						al := strings.Join(want.Allowed, ", ")
+						if rec.n != 0 {
+							bad = "a route handler ran"
+						} else if c.CustomNA {
+							if exp := "NA|" + strings.Join(want.Allowed, ","); body != exp || resp.Code != 405 {
+								bad = fmt.Sprintf("custom NotAllowed handler: expected body %q status 405 (allowed methods from context), got %q status %d", exp, body, resp.Code)
+							}
+						} else if m == "OPTIONS" {
+							if resp.Code != 200 || resp.Header().Get("Allow") != al {
+								bad = fmt.Sprintf("expected 200 with Allow %q, got %d with Allow %q", al, resp.Code, resp.Header().Get("Allow"))
+							}
+						} else if resp.Code != 405 || resp.Header().Get("Allow") != al {
+							bad = fmt.Sprintf("expected 405 with Allow %q, got %d with Allow %q", al, resp.Code, resp.Header().Get("Allow"))
+						}
+					case "404":
+						if rec.n != 0 {
+							bad = "a route handler ran"
+						} else if c.CustomNF {
+							if body != "NF" || resp.Code != 404 {
+								bad = fmt.Sprintf("custom NotFound handler: expected NF/404, got %q/%d", body, resp.Code)
+							}
+						} else if resp.Code != 404 {
+							bad = fmt.Sprintf("expected default 404, got %d", resp.Code)
 						}
 					}
-					add(sig, fmt.Sprintf("%s: Match(%s,%q) #%d -> route %d allowed %v; documented order gives %s route %d allowed %v", cfg(), m, p, rep+1, gotIdx, alm, want.Kind, want.Route, want.Allowed))
-					break
-				}
-				// the same request through ServeHTTP
-				rec.n, rec.idx = 0, -1
-				ctxAllowed = "<not called>"
-				resp, pv := serve(r, m, p)
-				if pv != nil {
-					add("serve:panic", fmt.Sprintf("%s: ServeHTTP(%s %q) panicked: %v", cfg(), m, p, pv))
-					break
-				}
-				body := resp.Body.String()
-				bad := ""
-				switch want.Kind {
-				case "route", "head-get", "fallback":
-					if rec.n != 1 || rec.idx != want.Route || resp.Code != 200 {
-						bad = fmt.Sprintf("expected handler of route %d once with 200; got handler %d x%d, status %d", want.Route, rec.idx, rec.n, resp.Code)
+					if bad != "" {
+						add("serve:"+want.Kind, fmt.Sprintf("%s: ServeHTTP(%s %q) #%d: %s", cfg(), m, p, rep+1, bad))
+						break
 					}
-				case "405":
-					al := strings.Join(want.Allowed, ", ")
-					if rec.n != 0 {
-						bad = "a route handler ran"
-					} else if c.CustomNA {
-						if exp := "NA|" + strings.Join(want.Allowed, ","); body != exp || resp.Code != 405 {
-							bad = fmt.Sprintf("custom NotAllowed handler: expected body %q status 405 (allowed methods from context), got %q status %d", exp, body, resp.Code)
-						}
-					} else if m == "OPTIONS" {
-						if resp.Code != 200 || resp.Header().Get("Allow") != al {
-							bad = fmt.Sprintf("expected 200 with Allow %q, got %d with Allow %q", al, resp.Code, resp.Header().Get("Allow"))
-						}
-					} else if resp.Code != 405 || resp.Header().Get("Allow") != al {
-						bad = fmt.Sprintf("expected 405 with Allow %q, got %d with Allow %q", al, resp.Code, resp.Header().Get("Allow"))
-					}
-				case "404":
-					if rec.n != 0 {
-						bad = "a route handler ran"
-					} else if c.CustomNF {
-						if body != "NF" || resp.Code != 404 {
-							bad = fmt.Sprintf("custom NotFound handler: expected NF/404, got %q/%d", body, resp.Code)
-						}
-					} else if resp.Code != 404 {
-						bad = fmt.Sprintf("expected default 404, got %d", resp.Code)
-					}
-				}
-				if bad != "" {
-					add("serve:"+want.Kind, fmt.Sprintf("%s: ServeHTTP(%s %q) #%d: %s", cfg(), m, p, rep+1, bad))
-					break
 				}
 			}
 		}
@@ -237,7 +271,7 @@ func c06Run(c c06Case, st *fw.Stats) []fw.Viol {
 var c06Spec = fw.Spec[c06Case]{
 	ID:    "C06",
 	Level: "model_checking",
-	Rule: "complete product: ordered tables of <=K routes from an 11-route pool x 2^4 option subsets {HandleMethodNotAllowed,HandleFallbackRoute,StrictLastSlash,caching cap 1} x 6 InterceptAll values x {default,custom} NotFound x {default,custom} NotAllowed; per configuration 10 methods x 8 paths, each request twice through Match and ServeHTTP, vs refmodel.Resolve; " +
+	Rule: "complete product: ordered tables of <=K routes from an 11-route pool x 2^4 option subsets {HandleMethodNotAllowed,HandleFallbackRoute,StrictLastSlash,caching (capacity 1 or 64)} x 6 InterceptAll values x {default,custom} NotFound x {default,custom} NotAllowed; per configuration 10 methods x 8 paths, each request twice through Match and ServeHTTP, vs refmodel.Resolve; " +
 		"non-trivial = a request that is not a direct match (HEAD->GET, fallback, 405, 404)",
 	Assume: []string{"routes, paths and option values come from the stated alphabets"},
 	Bounds: func(tier string) map[string]any {
